@@ -43,6 +43,9 @@ pub enum Policy {
     /// P0 and P1 a yielding thread steps aside, so a consumer hardly ever gets as far as sleeping). After 20
     /// yields in a row a thread steps aside here too (a spin-wait on another thread must not starve it).
     P2,
+    /// `Prio` with P2's treatment of yields: a thread of higher priority that was woken really runs at once and
+    /// really goes back to sleep (under `Prio` a consumer polling an empty queue steps aside instead)
+    PrioEager(Vec<String>),
 }
 
 #[derive(Clone, Debug, Serialize, Deserialize, PartialEq)]
@@ -175,6 +178,9 @@ pub struct Dec {
     pub enabled: Vec<usize>,
     pub default: usize,
     pub chosen: usize,
+    /// those of `enabled` that are not runnable but sit in a wait with a timeout (choosing one lets the timer land first)
+    #[serde(default)]
+    pub timers: Vec<usize>,
 }
 
 #[derive(Clone, Debug)]
@@ -1235,7 +1241,7 @@ impl<'a> Sup<'a> {
                                 }
                             }
                         }
-                        self.decisions.push(Dec { enabled, default, chosen: pick });
+                        self.decisions.push(Dec { enabled, default, chosen: pick, timers: vec![] });
                         let pos = waiters.iter().position(|w| w.1 == pick).unwrap();
                         let w = waiters.remove(pos);
                         waiters.insert(0, w);
@@ -1617,7 +1623,7 @@ impl<'a> Sup<'a> {
     }
 
     fn default_choice(&self, enabled: &[usize]) -> usize {
-        let eager = self.spec.policy == Policy::P2;
+        let eager = matches!(self.spec.policy, Policy::P2 | Policy::PrioEager(_));
         let nony: Vec<usize> = enabled.iter().cloned().filter(|&j| !self.th[j].yielded || (eager && self.th[j].yields <= 20)).collect();
         let cand: &[usize] = if nony.is_empty() { enabled } else { &nony };
         match &self.spec.policy {
@@ -1648,7 +1654,7 @@ impl<'a> Sup<'a> {
                 let after = self.cur.map(|c| c + 1).unwrap_or(0);
                 *v.iter().find(|&&x| x >= after).unwrap_or(&v[0])
             }
-            Policy::Prio(pats) => {
+            Policy::Prio(pats) | Policy::PrioEager(pats) => {
                 let mut v: Vec<usize> = cand.to_vec();
                 v.sort_by(|&x, &y| (Self::prio_rank(pats, &self.th[x].path_s), &self.th[x].path).cmp(&(Self::prio_rank(pats, &self.th[y].path_s), &self.th[y].path)));
                 v[0]
@@ -1711,9 +1717,11 @@ impl<'a> Sup<'a> {
             // A wait with a timeout may also end because the time is up, whatever else is going on (the thread that
             // would have woken it was slow). By default time stands still while anything can run; letting a timer
             // land first is one deviation, like a pre-emption.
+            let mut timers: Vec<usize> = vec![];
             for (j, t) in self.th.iter().enumerate() {
                 if matches!(t.st, St::Blocked { timed: true, .. }) && !enabled.contains(&j) {
                     enabled.push(j);
+                    timers.push(j);
                     if std::env::var_os("XV_DEBUG_TIMED").is_some() {
                         eprintln!("timed wait of thread {} is a candidate at decision {}", t.path_s, self.decisions.len());
                     }
@@ -1736,7 +1744,7 @@ impl<'a> Sup<'a> {
             if matches!(self.th[pick].st, St::Blocked { timed: true, .. }) {
                 self.expire_timed_wait(pick);
             }
-            self.decisions.push(Dec { enabled: enabled.clone(), default, chosen: pick });
+            self.decisions.push(Dec { enabled: enabled.clone(), default, chosen: pick, timers });
             self.cur = Some(pick);
             self.run_thread(pick, k)?;
             if self.steps > self.spec.step_limit {
